@@ -328,7 +328,7 @@ def clip_bounds_unchanged(res):
 
 def invalid_config(rng, res):
     fx = lib.impl()
-    bad = {'overflow': ['clip', 'Saturate', 1, None], 'rounding': ['nearest', 'Trunc', 0, None], 'shifting': ['grow', 'Expand', 3, None], 'op_input_size': ['big', 1],
+    bad = {'overflow': ['clip', 'saturated', 1, None], 'rounding': ['nearest', 'truncate', 0, None], 'shifting': ['grow', 'expanding', 3, None], 'op_input_size': ['big', 1],
            'op_sizing': ['tight', 5], 'op_method': ['fast', None], 'const_op_sizing': ['tight', 2], 'array_output_type': ['list', 0], 'array_op_method': ['fast', 1], 'dtype_notation': ['q', 'fxpx', 7],
            'op_out': [3, 'x'], 'op_out_like': [3.5], 'array_op_out': ['y'], 'array_op_out_like': [1], 'n_word_max': [0, -3, 2.5, 'a'], 'max_error': [0, -1.0]}
     for key, vals in bad.items():
